@@ -58,6 +58,9 @@ func NewTracer(ctx context.Context) ITracer {
 func (t *tracer) run(ctx context.Context) {
 	var termination sync.Once
 	defer close(t.done)
+	// ctxDone is set to nil once the cancellation has been seen: a nil channel never becomes ready,
+	// so the loop below waits for the remaining cases instead of spinning on the closed Done channel.
+	ctxDone := ctx.Done()
 
 	for {
 		select {
@@ -88,7 +91,8 @@ func (t *tracer) run(ctx context.Context) {
 			for _, subscriber := range t.subscribers {
 				subscriber <- trace
 			}
-		case <-ctx.Done():
+		case <-ctxDone:
+			ctxDone = nil
 			// Start a termination waiting routine (only once)
 			termination.Do(func() {
 				go func() {
